@@ -54,6 +54,7 @@ BOUNDS = {
     "excl": (-1000, 1000, -100, 100),
     "none": None,
     "shift-low": (-1900, 100, 0, 0),  # same width as b1000, moved down
+    "shrink-excl": (-500, 500, -100, 100),  # narrow bounds with an exclusion zone
 }
 
 EVENTS = (
@@ -76,6 +77,10 @@ OLD_STAMPED = {"shrink", "shift"}  # delivered with a timestamp older than the p
 # clamped by them, an operating-point preference, a repeated bounds message)
 DEEP_EVENTS = [("reg", "r1", 1, 2000, None), ("reg", "r1", 1, 300, None), ("op", "o1", 2, 500, None), ("op", "o1", 2, None, None),
                ("bounds", "b1000"), ("bounds", "shift-low"), ("bounds", "shrink")]
+# second reduced alphabet: an exclusion zone next to an operating point close to the bound; a higher-priority band that
+# ends up entirely below the system bounds once they shrink
+DEEP_EVENTS_B = [("bounds", "shrink-excl"), ("reg", "r2", 3, None, (-900, -700)), ("reg", "r1", 1, -300, None), ("reg", "r1", 1, 300, None),
+                 ("op", "o1", 2, 500, None), ("bounds", "shrink"), ("bounds", "b1000")]
 
 
 def sb(spec, loop, old=False):
@@ -205,6 +210,8 @@ def shard(args) -> Acc:
     ev = EVENTS if tier == "quick" else EVENTS_T
     if start == "deep":
         ev, start = DEEP_EVENTS, "warm"
+    elif start == "deep-b":
+        ev, start = DEEP_EVENTS_B, "warm"
     for tail in itertools.product(ev, repeat=depth):
         hist = list(prefix) + list(tail)
         obs, unhandled = run_history(hist, start)
@@ -248,6 +255,8 @@ def run(tier: str, seed: int, workers: int):
             shards.append((tier, [e1, e2], 2, "cold"))
     for e1, e2 in itertools.product(DEEP_EVENTS, DEEP_EVENTS):
         shards.append((tier, [e1, e2], 3 if tier == "quick" else 5, "deep"))  # depth 5 / 7 over the reduced alphabet
+    for e1, e2 in itertools.product(DEEP_EVENTS_B, DEEP_EVENTS_B):
+        shards.append((tier, [e1, e2], 2 if tier == "quick" else 4, "deep-b"))  # depth 4 / 6 over the second one
     if seed:
         import random
 
@@ -258,7 +267,9 @@ def run(tier: str, seed: int, workers: int):
         "bounds-only, 50), operating-point proposal (-300/0/500, withdrawal; thorough also 200 and a regular withdrawal), system bounds widen / shrink / shift / back / unavailable, "
         "distribution result Success / PartialFailure / Error for the latest request and a late PartialFailure for the previous one, expiry (+61 s)} from a warm start (bounds +-1000 delivered, one regular "
         "and one operating-point report subscription) and to depth 3-4 from a cold start (no bounds yet); plus every history to depth 5 (quick) / 7 over a reduced alphabet of 7 events "
-        "(regular preference 2000 / 300, operating-point preference 500 / withdrawal, bounds +-1000 / -1900..100 / +-500) from the warm start; non-trivial = history with a "
+        "(regular preference 2000 / 300, operating-point preference 500 / withdrawal, bounds +-1000 / -1900..100 / +-500) and to depth 4 / 6 over "
+        "a second one (bounds +-500 with an exclusion zone of +-100, a higher-priority band -900..-700, regular preference -300 / 300, "
+        "operating-point preference 500, bounds +-500 / +-1000) from the warm start; non-trivial = history with a "
         "regular and an operating-point proposal and at least one bounds/result/expiry event",
         "assumptions": [
             "system inclusion bounds contain 0 W (lower <= 0 <= upper), as C03 states the domain of system bounds and as every pool produces them",
